@@ -13,6 +13,7 @@ from __future__ import annotations
 
 import itertools
 import math
+import zlib
 
 import numpy as np
 
@@ -111,6 +112,128 @@ def same_kernel(a, b, tol=1e-9):
     return True, None
 
 
+def wiring(chk, r, n):
+    """The elementary moves are proved / compared in isolation; the sampler reaches them through
+    `mutation.compound_step`, `structural.compound_step` and `_denovo_assembler`.  Here those callers run as plain
+    Python with the callee replaced by a recorder, and every call must carry the chain's own parameters: the
+    inbreeding coefficient, the inverse temperature of that chain, the read counts, log(#haplotypes), the number of
+    alleles of the site / the interval, the move type, and the exchange must pair chain t with chain t-1."""
+    from mchap.assemble import mutation, structural, mcmc as amcmc
+    for it in range(n):
+        ploidy = r.choice([2, 3, 4]); n_base = r.randint(2, 5)
+        n_alleles = [r.choice([2, 2, 3, 4]) for _ in range(n_base)]
+        g = np.array(G.gen_genotype(r, ploidy, n_alleles), dtype=np.int8)
+        reads, counts = G.gen_reads(r, n_alleles, r.randint(2, 5), haps=g.tolist(), style="encoded")
+        counts = counts + r.randint(0, 2)
+        F = r.choice([0.05, 0.3, 0.6]); T = r.choice([0.2, 0.5, 1.0])
+        logU = float(np.log(np.array(n_alleles)).sum())
+        case = {"ploidy": ploidy, "n_alleles": n_alleles, "inbreeding": F}
+        calls = []
+
+        # ---- mutation sweep -> base_step
+        def rec_base(genotype, reads, llk, h, j, n_alleles, log_unique_haplotypes, inbreeding=0, temp=1, read_counts=None, cache=None):
+            calls.append(dict(h=int(h), j=int(j), n_alleles=int(n_alleles), logU=float(log_unique_haplotypes), F=inbreeding, T=temp,
+                              counts=None if read_counts is None else np.array(read_counts).tolist()))
+            return llk, cache
+        orig = mutation.base_step
+        mutation.base_step = rec_base
+        try:
+            mutation.compound_step.py_func(g.copy(), reads, -1.0, np.array(n_alleles, dtype=np.int8), logU, inbreeding=F, temp=T,
+                                           read_counts=counts, cache=None)
+        finally:
+            mutation.base_step = orig
+        chk.count("wiring:mutation-sweep")
+        chk.case(("wiring", "mutation", it, ploidy, tuple(n_alleles), F, T), True)
+        bad = [c for c in calls if not (c["F"] == F and c["T"] == T and abs(c["logU"] - logU) < 1e-12 and c["counts"] == counts.tolist()
+                                        and c["n_alleles"] == n_alleles[c["j"]])]
+        if bad or sorted((c["h"], c["j"]) for c in calls) != [(h, j) for h in range(ploidy) for j in range(n_base)]:
+            chk.violation("the mutation sweep does not hand the chain's parameters (inbreeding, temperature, read counts, allele number "
+                          "of the site) to every single-site move, once per (haplotype, site)",
+                          {**case, "temp": T, "first_bad_call": (bad or calls)[:1]}, "C01/wiring/mutation-sweep")
+
+        # ---- structural sweep -> interval_step
+        calls = []
+
+        def rec_int(genotype, reads, llk, log_unique_haplotypes, inbreeding=0, interval=None, step_type=0, temp=1, read_counts=None, cache=None):
+            calls.append(dict(interval=None if interval is None else [int(interval[0]), int(interval[1])], st=int(step_type),
+                              logU=float(log_unique_haplotypes), F=inbreeding, T=temp,
+                              counts=None if read_counts is None else np.array(read_counts).tolist()))
+            return llk, cache
+        st = r.choice([0, 1])
+        intervals = structural.random_breaks(r.randint(0, n_base - 1), n_base)
+        orig = structural.interval_step
+        structural.interval_step = rec_int
+        try:
+            structural.compound_step.py_func(g.copy(), reads, -1.0, intervals, logU, inbreeding=F, step_type=st, randomize=True, temp=T,
+                                             read_counts=counts, cache=None)
+        finally:
+            structural.interval_step = orig
+        chk.count("wiring:structural-sweep")
+        bad = [c for c in calls if not (c["F"] == F and c["T"] == T and c["st"] == st and abs(c["logU"] - logU) < 1e-12
+                                        and c["counts"] == counts.tolist())]
+        if bad or sorted(c["interval"] for c in calls) != sorted([int(a), int(b)] for a, b in intervals):
+            chk.violation("the structural sweep does not hand the chain's parameters (inbreeding, temperature, read counts, move type) "
+                          "to every interval move, once per interval",
+                          {**case, "temp": T, "step_type": st, "intervals": np.array(intervals).tolist(), "first_bad_call": (bad or calls)[:1]},
+                          "C01/wiring/structural-sweep")
+
+        # ---- the assembler loop -> sweeps and exchange
+        temps = np.array(sorted(r.sample([0.1, 0.25, 0.4, 0.6, 0.8], r.choice([1, 2])) + [1.0]))
+        log = []
+
+        def rec_mut(genotype, reads, llk, n_alleles, log_unique_haplotypes, inbreeding=0, temp=1, read_counts=None, cache=None):
+            log.append(("mut", dict(F=inbreeding, T=float(temp), counts=np.array(read_counts).tolist())))
+            return llk, cache
+
+        def rec_str(genotype, reads, llk, intervals, log_unique_haplotypes, inbreeding=0, step_type=0, randomize=True, temp=1,
+                    read_counts=None, cache=None):
+            log.append(("str", dict(F=inbreeding, T=float(temp), st=int(step_type), counts=np.array(read_counts).tolist(),
+                                    intervals=np.array(intervals).tolist())))
+            return llk, cache
+
+        def rec_swap(genotype_i, llk_i, temp_i, genotype_j, llk_j, temp_j, log_unique_haplotypes, inbreeding=0):
+            log.append(("swap", dict(F=inbreeding, Ti=float(temp_i), Tj=float(temp_j))))
+            return llk_i, llk_j
+        o1, o2, o3 = mutation.compound_step, structural.compound_step, amcmc.chain_swap_step
+        mutation.compound_step, structural.compound_step, amcmc.chain_swap_step = rec_mut, rec_str, rec_swap
+        steps = 3
+        try:
+            amcmc._denovo_assembler.py_func(genotype=g.copy(), inbreeding=F, reads=reads, read_counts=counts,
+                                            n_alleles=np.array(n_alleles, dtype=np.int8), steps=steps,
+                                            break_dist=np.array([0.6, 0.4]), recombination_step_probability=1.0,
+                                            partial_dosage_step_probability=1.0, dosage_step_probability=1.0,
+                                            temperatures=temps, return_heated_trace=False, llk_cache_threshold=-1)
+        finally:
+            mutation.compound_step, structural.compound_step, amcmc.chain_swap_step = o1, o2, o3
+        chk.count("wiring:assembler")
+        chk.case(("wiring", "assembler", it, tuple(temps.tolist()), F), len(temps) > 1)
+        expect = []
+        for _ in range(steps):
+            for t in range(len(temps)):
+                expect += [("mut", temps[t]), ("str0", temps[t]), ("str1", temps[t]), ("str1full", temps[t])]
+                if t > 0:
+                    expect.append(("swap", temps[t], temps[t - 1]))
+        got = []
+        okp = True
+        for kind, d in log:
+            okp &= d["F"] == F and (kind == "swap" or d["counts"] == counts.tolist())
+            if kind == "mut":
+                got.append(("mut", d["T"]))
+            elif kind == "str":
+                full = d["intervals"] == [[0, n_base]]
+                parts = sorted(d["intervals"])
+                okp &= parts[0][0] == 0 and parts[-1][1] == n_base and all(a[1] == b[0] for a, b in zip(parts, parts[1:]))
+                got.append((("str1full" if (full and d["st"] == 1 and got and got[-1][0] == "str1") else f"str{d['st']}"), d["T"]))
+            else:
+                got.append(("swap", d["Ti"], d["Tj"]))
+        if not okp or got != [tuple(float(x) if not isinstance(x, str) else x for x in e) for e in expect]:
+            chk.violation("the assembler loop does not run, for every step and every chain, mutation sweep / recombination sweep / "
+                          "interval dosage sweep / full-length dosage sweep with that chain's temperature and the sample's inbreeding, "
+                          "followed by an exchange with the next hotter chain",
+                          {**case, "temperatures": temps.tolist(), "observed": got[:12], "expected": [list(e) for e in expect[:12]]},
+                          "C01/wiring/assembler")
+
+
 def run(tier, replay=None):
     from mchap.assemble import mutation, structural, tempering
     from mchap.assemble.likelihood import log_likelihood
@@ -150,13 +273,26 @@ def run(tier, replay=None):
             out[key] = out.get(key, 0.0) + float(probs[idx])
         return out, probs
 
-    def impl_interval(garr, reads, counts, lo, hi, st, logU, F, T):
+    def call_interval(g2, reads, llk, logU, F, lo, hi, st, T, counts, via_compound):
+        if via_compound:
+            # the sweep function the sampler actually calls, with this one interval: the option kernel must be the same
+            jitted = structural.interval_step
+            structural.interval_step = jitted.py_func      # plain Python all the way down (the recorder replaces random_choice)
+            try:
+                structural.compound_step.py_func(g2, reads, llk, np.array([[lo, hi]]), logU, inbreeding=F, step_type=st,
+                                                 randomize=False, temp=T, read_counts=counts, cache=None)
+            finally:
+                structural.interval_step = jitted
+        else:
+            structural.interval_step.py_func(g2, reads, llk, logU, inbreeding=F, interval=(lo, hi), step_type=st, temp=T,
+                                             read_counts=counts, cache=None)
+
+    def impl_interval(garr, reads, counts, lo, hi, st, logU, F, T, via_compound=False):
         llk = log_likelihood(reads, garr, read_counts=counts)
         rec_s.probs = None
         rec_s.force = 0
         g2 = garr.copy()
-        structural.interval_step.py_func(g2, reads, llk, logU, inbreeding=F, interval=(lo, hi), step_type=st, temp=T,
-                                         read_counts=counts, cache=None)
+        call_interval(g2, reads, llk, logU, F, lo, hi, st, T, counts, via_compound)
         if rec_s.probs is None:
             return {G.canon_genotype(garr): 1.0}, 0
         probs = rec_s.probs
@@ -165,8 +301,7 @@ def run(tier, replay=None):
         for idx in range(n + 1):
             g2 = garr.copy()
             rec_s.force = idx
-            structural.interval_step.py_func(g2, reads, llk, logU, inbreeding=F, interval=(lo, hi), step_type=st, temp=T,
-                                             read_counts=counts, cache=None)
+            call_interval(g2, reads, llk, logU, F, lo, hi, st, T, counts, via_compound)
             key = G.canon_genotype(g2)
             out[key] = out.get(key, 0.0) + float(rec_s.probs[idx])
         return out, n
@@ -244,8 +379,10 @@ def run(tier, replay=None):
             else:
                 lo, hi, st = extra
                 mk, n, mlabels = model_kernel(a, T, cur, with_labels=True)
+                via = (zlib.crc32(line.encode()) % 2 == 0)
+                chk.count("interval-via-compound_step" if via else "interval-direct")
                 try:
-                    ik, n_impl = impl_interval(garr, reads, counts, lo, hi, st, logU, F, T)
+                    ik, n_impl = impl_interval(garr, reads, counts, lo, hi, st, logU, F, T, via_compound=via)
                 except Exception as e:   # noqa: BLE001
                     chk.violation(f"interval_step raises on a valid state: {type(e).__name__}: {e}",
                                   {**case, "interval": [lo, hi], "step_type": st},
@@ -337,6 +474,9 @@ def run(tier, replay=None):
                                   {**case, "acceptance": acc, "after_i": bi.tolist(), "after_j": bj.tolist(), "returned": [float(ri), float(rj)]},
                                   "C01/exchange/state-swap")
 
+        # ------------------------------------------------------------------ wiring of the sweeps: what the sampler hands to the moves
+        wiring(chk, r, {"warm": 1, "quick": 6, "thorough": 40}[tier])
+
         # ------------------------------------------------------------------ implementation oracle: exact DB on enumerated instances
         n_inst = {"warm": 1, "quick": 3, "thorough": 14}[tier]
         for inst in range(n_inst):
@@ -365,7 +505,8 @@ def run(tier, replay=None):
                 K = {}
                 for s in states:
                     arr = np.array(s, dtype=np.int8)
-                    k1, _ = impl_interval(arr, reads, counts, lo, hi, st, logU, F, T)
+                    # the kernel as the sampler runs it: through the sweep function (structural.compound_step)
+                    k1, _ = impl_interval(arr, reads, counts, lo, hi, st, logU, F, T, via_compound=True)
                     K[G.canon_genotype(s)] = k1
                     perm = list(range(ploidy)); r.shuffle(perm)
                     k2, _ = impl_interval(arr[perm], reads, counts, lo, hi, st, logU, F, T)
